@@ -464,7 +464,8 @@ void SimulateF100L::alu(uint16_t opcode)
 
       if (r == 1)
       {
-        ea += 1;
+        // The pointer is a 16 bit word: 0xffff increments to 0.
+        ea = (ea + 1) & 0xffff;
         memory->write16(p * 2, ea);
       }
         else
